@@ -56,6 +56,7 @@ enum Pending<'a> {
 enum DirOp {
     Create(String, usize),
     Unlink(String),
+    Rename(String, String),
 }
 
 /// Power-loss image: durable state (per-inode content as of its last fsync, directory as of the
@@ -96,6 +97,10 @@ pub fn powerloss_image(trace: &[Effect], base: &FsState, idx: usize, byte: Optio
                 os.apply(&e.eff);
                 pend_dir.push(DirOp::Unlink(name.clone()));
             }
+            Eff::Rename { from, to } => {
+                os.apply(&e.eff);
+                pend_dir.push(DirOp::Rename(from.clone(), to.clone()));
+            }
             _ => {}
         }
     }
@@ -128,6 +133,11 @@ pub fn powerloss_image(trace: &[Effect], base: &FsState, idx: usize, byte: Optio
                 }
                 DirOp::Unlink(name) => {
                     dir.remove(&name);
+                }
+                DirOp::Rename(from, to) => {
+                    if let Some(node) = dir.remove(&from) {
+                        dir.insert(to, node);
+                    }
                 }
             }
         }
